@@ -24,21 +24,22 @@ M2C = "x = 1\n"
 M3 = "def g():\n    return 3\n\n\nclass G:\n    pass\n"
 M4 = "class K:\n    z = 1\n\n\ndef h():\n    return K()\n"
 M1B = "import m4\nv = m4.K()\nu = m4.h()\n"
-INIT = {"m1.py": M1.encode(), "m2.py": M2.encode(), "pkg": DIR, "pkg/__init__.py": b"", "pkg/m3.py": M3.encode()}
+INIT = {"m1.py": M1.encode(), "m2.py": M2.encode(), "pkg": DIR, "pkg/__init__.py": b"", "pkg/m3.py": M3.encode(),
+        "pkgb": DIR, "pkgb/__init__.py": b"", "pkgb/m5.py": b"def t():\n    return 5\n"}
 
 MUT = {
     "W:m2=B": ("W", "m2.py", M2B), "W:m2=C": ("W", "m2.py", M2C), "W:m1=B": ("W", "m1.py", M1B),
     "W:m4": ("W", "m4.py", M4), "CF:m4": ("CF", "", "m4.py"), "CD:sub": ("CD", "pkg", "sub"),
-    "MV:m2>pkg": ("MV", "m2.py", "pkg/m2.py"), "MV:pkg>pkg2": ("MV", "pkg", "pkg2"), "MV:m2>m4": ("MV", "m2.py", "m4.py"),
+    "MV:m2>pkg": ("MV", "m2.py", "pkg/m2.py"), "MV:m3>pkgb": ("MV", "pkg/m3.py", "pkgb/m3.py"), "W:m2=EMPTY": ("W", "m2.py", "pass\n"), "MV:pkg>pkg2": ("MV", "pkg", "pkg2"), "MV:m2>m4": ("MV", "m2.py", "m4.py"),
     "RM:m2": ("RM", "m2.py"), "REN:K>Q": ("REN", "m2.py", "K", "Q"), "undo": ("undo",), "redo": ("redo",),
     "X:W:m2=B": ("XW", "m2.py", M2B), "X:C:m4": ("XW", "m4.py", M4), "X:RM:m2": ("XRM", "m2.py"), "X:MV:m2>m5": ("XMV", "m2.py", "m5.py"),
     "X:C:m2": ("XW", "m2.py", M2), "X:OLD:m2=B": ("XOLD", "m2.py", M2B),
     "Q:files": ("Q", "files"), "Q:find": ("Q", "find"), "Q:m1": ("Q", "mod", "m1.py"), "Q:m2": ("Q", "mod", "m2.py"),
-    "Q:occ": ("Q", "occ"), "Q:all": ("Q", "all"),
+    "Q:occ": ("Q", "occ"), "Q:all": ("Q", "all"), "Q:pkgs": ("Q", "pkgs"),
 }
 ALPHA_FULL = list(MUT)
-ALPHA_SMALL = ["W:m2=B", "W:m1=B", "W:m4", "CF:m4", "MV:m2>pkg", "MV:pkg>pkg2", "RM:m2", "undo", "X:C:m4", "X:RM:m2", "X:C:m2", "Q:all", "Q:m1"]
-NAMES = ["m1", "m2", "m4", "m5", "pkg", "pkg.m3", "pkg.m2", "pkg2", "pkg2.m3", "pkg.sub"]
+ALPHA_SMALL = ["MV:m3>pkgb", "Q:pkgs", "W:m2=B", "W:m1=B", "W:m4", "CF:m4", "MV:m2>pkg", "MV:pkg>pkg2", "RM:m2", "undo", "X:C:m4", "X:RM:m2", "X:C:m2", "Q:all", "Q:m1"]
+NAMES = ["m1", "m2", "m4", "m5", "pkg", "pkg.m3", "pkg.m2", "pkg2", "pkg2.m3", "pkg.sub", "pkgb", "pkgb.m3", "pkgb.m5"]
 
 
 class Skip(Exception):
@@ -104,6 +105,18 @@ def observe(project, autoimport=None):
         except Exception as e:
             d["error"] = "raised:" + type(e).__name__ + ":" + str(e)[:80]
         obs["module:" + r.path] = d
+    # packages: the names a package object offers (its __init__ plus its sub-modules)
+    pk = {}
+    try:
+        folders = sorted({r.parent.path for r in pyfiles if r.name == "__init__.py"})
+        for fp in folders:
+            try:
+                pk[fp] = sorted(project.get_pymodule(project.get_folder(fp)).get_attributes().keys())
+            except Exception as e:
+                pk[fp] = "raised:" + type(e).__name__
+    except Exception as e:
+        pk = "raised:" + type(e).__name__
+    obs["packages"] = pk
     # occurrences of the first class defined in each module
     occ = {}
     for r in pyfiles:
@@ -270,6 +283,11 @@ class World:
                 if i < 0:
                     raise Skip()
                 findit.find_occurrences(p, f, i + 6)
+            elif what == "pkgs":
+                for fp in ("pkg", "pkgb", "pkg2"):
+                    f = p.get_folder(fp)
+                    if f.exists():
+                        p.get_pymodule(f).get_attributes()
             elif what == "all":
                 observe(p, self.ai)
         except Skip:
@@ -302,7 +320,7 @@ def diff_obs(a, b):
 class C13(Check):
     pid = "C13"
     level = "model_checking"
-    rule = ("states are event histories over 25 events: 13 mutations through rope (content edits that add/remove definitions and "
+    rule = ("states are event histories over 28 events: 13 mutations through rope (content edits that add/remove definitions and "
             "imports, create file/folder, move file into package, rename package folder, move onto another module name, remove, "
             "Rename refactoring, undo, redo), 6 changes behind rope's back each followed by validate() (write, write with an older time stamp, create, remove, "
             "move, re-create) and 6 cache-warming queries; every enabled sequence to depth d is replayed on one long-lived real "
@@ -318,7 +336,7 @@ class C13(Check):
     budget_quick = 200
 
     def bound_text(self, tier):
-        return "depth 3 over 25 events" if tier == "quick" else "depth 4 over 25 events; depth 5 over a 13-event sub-alphabet"
+        return "depth 3 over 28 events" if tier == "quick" else "depth 4 over 28 events; depth 5 over a 13-event sub-alphabet"
 
     def cases(self, tier):
         out = []
@@ -397,7 +415,7 @@ class C13(Check):
                 byk = {}
                 for k, kk, a, b in d:
                     area = "autoimport" if k == "autoimport" else ("files" if k in ("files", "python_files") else
-                                                                   "find_module" if k == "find_module" else "occurrences" if k == "occurrences" else "module")
+                                                                   "find_module" if k == "find_module" else "occurrences" if k == "occurrences" else "packages" if k == "packages" else "module")
                     byk.setdefault(area, []).append((k, kk, a, b))
                 for area, items in byk.items():
                     res["fails"].append({"kind": "differs:" + area, "features": feats, "size": len(seq),
